@@ -185,7 +185,36 @@ pub fn os(v: &[Tok]) -> Vec<OsString> {
     v.iter().cloned().map(OsString::from_vec).collect()
 }
 
+/// bumped at the start of every executed operation; the worker's watchdog thread aborts the
+/// process when it stops moving (a hang in code that never passes a tick)
+pub static HEARTBEAT: std::sync::atomic::AtomicU64 = std::sync::atomic::AtomicU64::new(0);
+
+/// Abort the process when no operation has started for `secs` seconds. Operations take micro- to
+/// milliseconds, an exhausted step budget a few seconds; only a loop that never reaches a tick
+/// can be silent that long. The driver attributes the death to the run in progress.
+pub fn start_watchdog(secs: u64) {
+    std::thread::spawn(move || {
+        let mut last = HEARTBEAT.load(std::sync::atomic::Ordering::Relaxed);
+        let mut idle = 0u64;
+        loop {
+            std::thread::sleep(std::time::Duration::from_secs(1));
+            let now = HEARTBEAT.load(std::sync::atomic::Ordering::Relaxed);
+            if now == last {
+                idle += 1;
+                if idle >= secs {
+                    eprintln!("watchdog: no operation started for {} s, aborting", secs);
+                    std::process::abort();
+                }
+            } else {
+                idle = 0;
+                last = now;
+            }
+        }
+    });
+}
+
 fn arm(cb: Option<(u32, CbFault)>, budget: u64) {
+    HEARTBEAT.fetch_add(1, std::sync::atomic::Ordering::Relaxed);
     world::with(|s| {
         s.reset_observations();
         s.budget = budget;
@@ -370,6 +399,7 @@ pub fn launch(
     err_fault: &StreamFault,
     budget: u64,
 ) -> ProcObs {
+    HEARTBEAT.fetch_add(1, std::sync::atomic::Ordering::Relaxed);
     world::with(|s| {
         s.reset_observations();
         s.budget = budget;
